@@ -55,6 +55,30 @@ PROPS['C15'] = {
         'sampling, not proof'],
 }
 
+PROPS['C14'] = {
+    'harness': 'crash', 'level': 'fault_enumeration',
+    'runs': {'quick': 1400, 'thorough': 8000},
+    'cpu_s': 3600, 'wall_s': 3600,
+    'rule': ('one run = one generated file (format, grid, layers, species, '
+             'steps, start date seeded; every value unique) cut at a set of '
+             'byte offsets: quick = every offset within 5 bytes of every '
+             'record boundary, step boundary and header end, the first 64 '
+             'bytes and a seeded sample of interior offsets; thorough = every '
+             'offset of the file for half of the files. Each cut is opened and '
+             'fully read by the real reader in a forked child under a CPU '
+             'limit. evaluations = cuts judged; distinct = distinct (format, '
+             'steps, nx, ny, nz, number of cuts) file traces; non-trivial = '
+             'the file was cut and judged at least once'),
+    'components': {'real': REAL + ['kernel RLIMIT_CPU enforcement'],
+                   'stub': ['producers of the files (reference CAMx encoders)',
+                            'crash = byte prefix of the complete file']},
+    'assumptions': [
+        'a sequential writer interrupted at byte N leaves the N-byte prefix',
+        'time flags are compared with the same reader\'s flags for the complete file; data with the producer\'s ground truth',
+        'bpch: both bpch readers raise on every file under the installed numpy, so bpch cuts are not generated (raising is an allowed outcome)',
+        'auto-detection of torn files is not exercised (which reader should claim a fragment is not stated)'],
+}
+
 MANIFEST_TEXT = {
     'C05': {
         'text': ('Seeded search over schedules: thousands of simulated runs, '
@@ -97,6 +121,29 @@ MANIFEST_TEXT['C15'] = {
     'technique': 'deterministic simulation: seeded open/registration histories checked against a history-free forked reference process',
 }
 
+MANIFEST_TEXT['C14'] = {
+    'text': ('Crash-point enumeration: for generated files of every CAMx '
+             'binary format with a memmap reader (gridded, boundary, '
+             'temperature, wind, generic 3-D incl. humidity / vertical '
+             'diffusivity, height/pressure) the fault "producer stopped at '
+             'byte N" is injected at every offset near every structural '
+             'boundary plus a seeded interior sample (quick) or at every '
+             'offset of the file (thorough, exhaustive per file); the real '
+             'reader opens and fully reads each torn image in a forked child '
+             'under a CPU limit and must raise or expose only complete steps '
+             'identical to the producer\'s ground truth. Enumeration of the '
+             'crash-point space is what the property quantifies over; file '
+             'shapes are sampled.'),
+    'design_ref': 'DESIGN.md section 4 (C14)',
+    'note': ('Trusted: reference encoders (validated byte-for-byte against '
+             'the repo samples), prefix crash model. One recorded known '
+             'finding (temperature, inherent to the headerless format) is '
+             'continued past inside runs so the remaining offsets are still '
+             'judged. bpch not covered: its readers raise on every file in '
+             'this environment.'),
+    'technique': 'deterministic simulation: enumeration of crash points (byte prefixes) with the real reader in CPU-limited forked children against producer ground truth',
+}
+
 NOT_APPLICABLE = {
     'C01': 'pure function of (file, operation sequence): no clock, handle, finaliser, registry or disk state enters any conjunct, so there is no schedule or fault to sample',
     'C02': 'hyperslab selection is a pure function of arrays and selectors; nothing for a simulator to schedule or fault',
@@ -117,7 +164,6 @@ PENDING = {
     'C08': 'planned (DESIGN.md section 5): check not registered yet',
     'C09': 'planned (DESIGN.md section 5): check not registered yet',
     'C13': 'planned (DESIGN.md section 5, access-schedule over hidden cursors): check not registered yet',
-    'C14': 'planned (DESIGN.md section 4, crash-point enumeration): check not registered yet',
     'C18': 'planned (DESIGN.md section 5): check not registered yet',
     'C19': 'planned (DESIGN.md section 5): check not registered yet',
 }
